@@ -31,7 +31,10 @@ type c04Snap struct {
 }
 
 func cloneCounters(c *schedCounters) *schedCounters {
-	n := &schedCounters{attempts: map[string]int{}, failedMsg: map[int][]string{}}
+	n := &schedCounters{attempts: map[string]int{}, failedMsg: map[int][]string{}, failedUndo: map[int]bool{}}
+	for k, v := range c.failedUndo {
+		n.failedUndo[k] = v
+	}
 	for k, v := range c.attempts {
 		n.attempts[k] = v
 	}
